@@ -49,6 +49,12 @@ Definition run (v : val) : val :=
     | None => L [I 0]
     | Some c => L [I 1; vlist vN (oracle c (d_req rq) (dbool s) (d_headers h) (d_headers h'))]
     end
+  | L [I 3; ce; mw; batches] =>   (* app wiring: init then add_middleware batches *)
+    match app_init (dbool ce) (dlist dbool mw) with
+    | None => L [I 0]
+    | Some u => L [I 1; vnat (count_cors (add_all (dbool ce) u (dlist (dlist dbool) batches)));
+                   vlist vbool (add_all_trace (dbool ce) u (dlist (dlist dbool) batches))]
+    end
   | _ => L [I (-1)]
   end.
 
